@@ -280,11 +280,31 @@ func (w *World) restrictResults() []*obResult {
 							return true
 						}
 						sel, ok := ast.Unparen(c.Fun).(*ast.SelectorExpr)
-						if !ok || sel.Sel.Name != rd.Method {
+						mname, recvName := rd.Method, ""
+						if i := strings.Index(mname, "."); i > 0 {
+							recvName, mname = mname[:i], mname[i+1:]
+						}
+						if !ok || sel.Sel.Name != mname {
 							return true
 						}
-						if s, ok := pk.Info.Selections[sel]; !ok || s.Kind() != types.MethodVal {
+						selInfo, ok := pk.Info.Selections[sel]
+						if !ok || selInfo.Kind() != types.MethodVal {
 							return true
+						}
+						if recvName != "" {
+							// "T.m": only the method m of the named type T (value or pointer receiver)
+							fnObj, _ := selInfo.Obj().(*types.Func)
+							if fnObj == nil {
+								return true
+							}
+							rt := fnObj.Type().(*types.Signature).Recv().Type()
+							if pt, ok := rt.(*types.Pointer); ok {
+								rt = pt.Elem()
+							}
+							nt, ok := types.Unalias(rt).(*types.Named)
+							if !ok || nt.Obj().Name() != recvName {
+								return true
+							}
 						}
 						n++
 						name := fmt.Sprintf("restricted:%s.%s:%s", rd.Pkg, fn, rd.Method)
